@@ -112,8 +112,10 @@ def emit_fn(fn):
     body, n = X.r_strip_ns(body); note("R2b_strip_detail_ns", n)
     body, n = X.r_std(body); note("R2_std", n)
     body, n = X.r_auto(body); note("R22_auto", n)
+    body, n = X.r_range_for(body); note("R27_range_for", n)
     body, n = X.r_ref_to_array(body); note("R25_ref_to_array", n)
     body, n = X.r_local_using(body); note("R26_local_using", n)
+    body, n = X.r_local_const_ref(body, tuple(set(fn.vec_types) | {"IN_VEC_T", "OUT_VEC_T"})); note("R28_local_const_ref", n)
     body, n = X.r_functional_cast(body); note("R1b_functional_cast", n)
     body, n = X.r_brace_scalar_init(body); note("R1c_brace_init", n)
     body, n = X.r_if_constexpr(body); note("R6_if_constexpr", n)
